@@ -48,5 +48,27 @@ Fixpoint get (t : tree) (p : list pstep) : option tree :=
   | Idx i :: r => match t with Seq l => match nth_error l i with Some c => get c r | None => None end | _ => None end
   end.
 
+(* well-keyed: no `Node` of the tree lists a key twice (then every field is reachable by a path) *)
+Fixpoint keys_nodupb (ks : list string) : bool :=
+  match ks with [] => true | k :: r => negb (existsb (String.eqb k) r) && keys_nodupb r end.
+Fixpoint wkb (t : tree) : bool :=
+  match t with
+  | Leaf _ => true
+  | Node fs => keys_nodupb (map fst fs) && (fix go (l : list (string * tree)) : bool := match l with [] => true | (_, c) :: r => wkb c && go r end) fs
+  | Seq l => (fix go (l : list tree) : bool := match l with [] => true | c :: r => wkb c && go r end) l
+  end.
+
+(* the specification of inclusion, in terms of paths only: wherever a has something, b has something of the same kind --
+   the same scalar / bytes value, a keyed container, or an ordered list of the same length *)
+Definition same_kind (x y : tree) : Prop :=
+  match x, y with
+  | Leaf v, Leaf w => v = w
+  | Node _, Node _ => True
+  | Seq l, Seq m => List.length l = List.length m
+  | _, _ => False
+  end.
+Definition Included (a b : tree) : Prop :=
+  forall p x, get a p = Some x -> exists y, get b p = Some y /\ same_kind x y.
+
 Fixpoint disagreeing (i : nat) (cs : list bool) : list nat :=
   match cs with [] => [] | c :: t => ((if c then [] else [i]) ++ disagreeing (S i) t)%list end.
